@@ -83,7 +83,7 @@ fn res(r: anyhow::Result<P>) -> String {
 }
 
 fn eval(op: &str, args: &[P]) -> String {
-    if op.starts_with("L:") || op.starts_with("M:") || op.starts_with("X:") || op.starts_with("P:") || op.starts_with("S:") || op.starts_with("K:") || op.starts_with("E:") || op.starts_with("J:") {
+    if op.starts_with("L:") || op.starts_with("M:") || op.starts_with("X:") || op.starts_with("P:") || op.starts_with("S:") || op.starts_with("K:") || op.starts_with("E:") || op.starts_with("J:") || op.starts_with("F:") {
         // list kernels: the operand list may be empty (empty receiver, no argument)
         return verif_native_ext::eval_ext(op, args);
     }
